@@ -54,7 +54,7 @@ func c07Gen(idx int) c07Case {
 		schemes = schemes[:2]
 	}
 	c := c07Case{Index: idx, Scheme: schemes[idx%len(schemes)].Name, Backend: []string{"bolt-trimmed", "memdb", "bolt-untrimmed"}[rng.Intn(3)],
-		Shape: []string{"same", "add", "remove", "replace", "thr-up", "thr-down"}[(idx/len(schemes))%6], PeriodS: rng.Range(2, 4), Seed: seed,
+		Shape: []string{"same", "add", "remove", "replace", "thr-up", "thr-down", "remove-all-needed"}[(idx/len(schemes))%7], PeriodS: rng.Range(2, 4), Seed: seed,
 		AtRound: rng.Range(3, 6), Lead: rng.Range(1, 4), Outage: []string{"none", "none", "one-remainer-down-across-transition", "loss"}[rng.Intn(4)], Epochs: 1}
 	c.CatchupS = []int{0, 1}[rng.Intn(2)]
 	c.N1 = rng.Range(3, 5)
@@ -69,6 +69,15 @@ func c07Gen(idx int) c07Case {
 			c.N1, c.T1 = 4, 3
 		}
 		c.Members2 = seqInts(c.N1)[1:] // node 0 leaves
+	case "remove-all-needed":
+		// node 0 leaves, every remaining index moves down by one, and the new threshold is the size of the new group:
+		// every member's partial is needed by every member
+		if c.N1 < 4 {
+			c.N1, c.T1 = 4, 3
+		}
+		c.Members2 = seqInts(c.N1)[1:]
+		c.T2 = len(c.Members2)
+		c.Outage = "none"
 	case "replace":
 		c.Members2 = append(seqInts(c.N1)[1:], c.N1) // node 0 leaves, node N1 joins
 	case "thr-up":
